@@ -9,6 +9,9 @@ Every invocation is appended to w.log as a tuple.
 import socketio
 
 OUTCOMES = ['accept', 'false', 'cre0', 'cre1', 'cre2', 'cre3']
+# 'j' + outcome: the connect handler first puts the new sid into JOIN_ROOM
+JOIN_OUTCOMES = ['jaccept', 'jfalse', 'jcre2']
+JOIN_ROOM = 'lobby'
 
 
 class AppError(Exception):
@@ -17,6 +20,8 @@ class AppError(Exception):
 
 def refusal_payload(outcome):
     """Documented refusal payload (reference model 4.3)."""
+    if outcome.startswith('j'):
+        outcome = outcome[1:]
     if outcome in ('false', 'cre0'):
         return {'message': 'Connection rejected by server'}
     if outcome == 'cre1':
@@ -30,6 +35,8 @@ def refusal_payload(outcome):
 
 def _connect_outcome(w):
     o = w.script.get('connect', 'accept')
+    if o.startswith('j'):
+        o = o[1:]
     if o == 'accept':
         return None
     if o == 'false':
@@ -66,7 +73,7 @@ def install(w, kind, nss, events=('ev', 'ret')):
         w.log.append(('connect', ns, sid, auth,
                       environ.get('t') if isinstance(environ, dict) else None))
         _tick(w, 'connect')
-        return _connect_outcome(w)
+        return w.script.get('connect', 'accept').startswith('j')
 
     def on_disconnect(ns, sid, reason):
         w.log.append(('disconnect', ns, sid, reason))
@@ -82,13 +89,17 @@ def install(w, kind, nss, events=('ev', 'ret')):
             def mk(ns):
                 if is_async:
                     async def c(sid, environ, auth):
-                        return on_connect(ns, sid, environ, auth)
+                        if on_connect(ns, sid, environ, auth):
+                            await sio.enter_room(sid, JOIN_ROOM, namespace=ns)
+                        return _connect_outcome(w)
 
                     async def d(sid, reason):
                         return on_disconnect(ns, sid, reason)
                 else:
                     def c(sid, environ, auth):
-                        return on_connect(ns, sid, environ, auth)
+                        if on_connect(ns, sid, environ, auth):
+                            sio.enter_room(sid, JOIN_ROOM, namespace=ns)
+                        return _connect_outcome(w)
 
                     def d(sid, reason):
                         return on_disconnect(ns, sid, reason)
@@ -108,13 +119,17 @@ def install(w, kind, nss, events=('ev', 'ret')):
     elif kind == 'star':
         if is_async:
             async def c(ns, sid, environ, auth):
-                return on_connect(ns, sid, environ, auth)
+                if on_connect(ns, sid, environ, auth):
+                    await sio.enter_room(sid, JOIN_ROOM, namespace=ns)
+                return _connect_outcome(w)
 
             async def d(ns, sid, reason):
                 return on_disconnect(ns, sid, reason)
         else:
             def c(ns, sid, environ, auth):
-                return on_connect(ns, sid, environ, auth)
+                if on_connect(ns, sid, environ, auth):
+                    sio.enter_room(sid, JOIN_ROOM, namespace=ns)
+                return _connect_outcome(w)
 
             def d(ns, sid, reason):
                 return on_disconnect(ns, sid, reason)
@@ -137,14 +152,18 @@ def install(w, kind, nss, events=('ev', 'ret')):
                 if is_async:
                     class NS(base):
                         async def on_connect(self, sid, environ, auth=None):
-                            return on_connect(ns, sid, environ, auth)
+                            if on_connect(ns, sid, environ, auth):
+                                await self.enter_room(sid, JOIN_ROOM)
+                            return _connect_outcome(w)
 
                         async def on_disconnect(self, sid, reason):
                             return on_disconnect(ns, sid, reason)
                 else:
                     class NS(base):
                         def on_connect(self, sid, environ, auth=None):
-                            return on_connect(ns, sid, environ, auth)
+                            if on_connect(ns, sid, environ, auth):
+                                self.enter_room(sid, JOIN_ROOM)
+                            return _connect_outcome(w)
 
                         def on_disconnect(self, sid, reason):
                             return on_disconnect(ns, sid, reason)
